@@ -679,6 +679,48 @@ impl Sweep for Literals {
                 }
             }
         }
+        // long spellings: 1..9 mantissa digits, every position of the point, exponents with
+        // one to eight digits, suffixes - the 7-digit rule counts mantissa digits only
+        if shard == 1 {
+            for m in 1..=9usize {
+                let digits = &"123456789"[..m];
+                for p in 0..=m + 1 {
+                    let mant = if p == m + 1 { digits.to_string() } else { format!("{}.{}", &digits[..p], &digits[p..]) };
+                    for e in ["", "E5", "E10", "E+10", "E-10", "E05", "E005", "E0000010", "E-00000010", "D5", "D10", "D-10", "D005", "D0000010"] {
+                        for suf in ["", "!", "#"] {
+                            let s = format!("{}{}{}", mant, e, suf);
+                            let exp = match classify(&s) {
+                                Some(x) => x,
+                                None => continue,
+                            };
+                            if !ctx.begin(&format!("A={}", s)) {
+                                continue;
+                            }
+                            match literal_of_line(&s) {
+                                Err(pn) => ctx.violation("literal/panic", pn),
+                                Ok(got) => {
+                                    ctx.nontrivial(hash64(&format!("{:?}", exp)));
+                                    let ok = match (&exp, &got) {
+                                        (Ok(e), Some(g)) => e.ty() == g.ty() && e.same_bits(g),
+                                        (Err(()), None) => true,
+                                        _ => false,
+                                    };
+                                    if !ok {
+                                        let class = match (&exp, &got) {
+                                            (Ok(e), Some(g)) if e.ty() != g.ty() => format!("typed-{:?}-instead-of-{:?}", g.ty(), e.ty()),
+                                            (Ok(_), Some(_)) => "wrong-value".to_string(),
+                                            (Ok(_), None) => "rejected".to_string(),
+                                            _ => "accepted-out-of-range".to_string(),
+                                        };
+                                        ctx.violation(&format!("literal/{}", class), format!("{} : manual says {:?}, parser gives {:?}", s, exp, got));
+                                    }
+                                }
+                            }
+                        }
+                    }
+                }
+            }
+        }
         // radix literals
         if shard == 0 {
             for (s, v) in [("&10", 8), ("&010", 8), ("&H0D", 13), ("&HFF", 255), ("&H7FFF", 32767), ("&77777", 32767), ("&h1f", 31), ("&0", 0), ("&H0", 0)] {
